@@ -118,12 +118,12 @@ def generate(template_path, repo, out_name):
             text = X.lower_range_for(text, log)
             text = preserve_lines_rewrites(text, X.STD_RULES, log, what)
         text = preserve_lines_rewrites(text, t.get('post_rewrites', []), log, what)
+        ghosts = [dict(gh, text=_one_line(gh['text'])) for gh in t.get('ghosts', [])]
+        text = X.insert_ghosts(text, ghosts, what)
         loops = [{'ordinal': lp['ordinal'], 'contract': _one_line(lp['contract'])} for lp in t.get('loops', [])]
         text, nloops = X.attach_loop_contracts(text, loops, what)
         if 'nloops' in t and int(t['nloops']) != nloops:
             raise X.ExtractionBroken('%s: body has %d loops, unit expects %d' % (what, nloops, t['nloops']))
-        ghosts = [dict(gh, text=_one_line(gh['text'])) for gh in t.get('ghosts', [])]
-        text = X.insert_ghosts(text, ghosts, what)
         if t.get('unwrap'):
             text = text.strip()[1:-1]
         g.extractions.append({'file': t['file'], 'head': t['head'], 'line': line,
